@@ -633,6 +633,13 @@ def rule_joinfirst(ctx):
         for an, _av, cn in _appends(pa):
             if isinstance(cn.args[0], ast.Name):
                 alias.setdefault(cn.args[0].id, set()).add(an)
+        # ... and a local bound once to an element of an array stands for that array (`x = arr[-1]; (tag, x.args, x.shm.name)`)
+        for st_ in walk_no_nested(pa.node):
+            if isinstance(st_, ast.Assign) and len(st_.targets) == 1 and isinstance(st_.targets[0], ast.Name) and isinstance(st_.value, ast.Subscript) \
+                    and isinstance(st_.value.value, ast.Name):
+                nm_ = st_.targets[0].id
+                if sum(1 for x in walk_no_nested(pa.node) if isinstance(x, ast.Name) and x.id == nm_ and isinstance(x.ctx, ast.Store)) == 1:
+                    alias.setdefault(nm_, set()).add(st_.value.value.id)
         def arrays_of(ns):
             out = set()
             for nm in ns:
@@ -1071,12 +1078,20 @@ class MergeTreeInterp:
             it = self.ev(g.iter, env)
             if isinstance(it, range):
                 it = list(it)
-            if not isinstance(it, (list, tuple)) or not isinstance(g.target, ast.Name):
+            tgt_names = [g.target.id] if isinstance(g.target, ast.Name) else \
+                [t.id for t in g.target.elts] if isinstance(g.target, (ast.Tuple, ast.List)) and all(isinstance(t, ast.Name) for t in g.target.elts) else None
+            if not isinstance(it, (list, tuple)) or tgt_names is None:
                 raise MTUndecided("comprehension over `%s`" % unparse(g.iter))
             out = []
             inner = dict(env)
             for x in it:
-                inner[g.target.id] = x
+                if isinstance(g.target, ast.Name):
+                    inner[g.target.id] = x
+                else:
+                    if not isinstance(x, (list, tuple)) or len(x) != len(tgt_names):
+                        raise MTUndecided("comprehension over `%s`" % unparse(g.iter))
+                    for nm_, xv in zip(tgt_names, x):
+                        inner[nm_] = xv
                 keep = True
                 for c in g.ifs:
                     t = self.ev(c, inner)
